@@ -1,4 +1,6 @@
+pub mod c10;
 pub mod c12;
+pub mod c20;
 pub mod e1;
 pub mod e3;
 pub mod e4;
